@@ -14,8 +14,13 @@ package main
 // ---- Backend interface (call-event ghosts: sends, closedB) ----
 
 //@ iface Backend.Send
-//@   modifies sends
-//@   ensures sends == old(sends) ++ seq1(self)
+//@   modifies sends, RoundRobinBackend.index
+//@   ensures leaf: !isType(self, "*RoundRobinBackend") ==> sends == old(sends) ++ seq1(self) && (forall r *RoundRobinBackend :: r.index == old(r.index))
+//@   ensures pool-empty: isType(self, "*RoundRobinBackend") && len(old(asRef(self, "*RoundRobinBackend").backends)) == 0 ==> result != nil && sends == old(sends) && (forall r *RoundRobinBackend :: r.index == old(r.index))
+//@   ensures pool-rotates: isType(self, "*RoundRobinBackend") && len(old(asRef(self, "*RoundRobinBackend").backends)) > 0 ==>
+//@        asRef(self, "*RoundRobinBackend").index == (old(asRef(self, "*RoundRobinBackend").index) + 1) % len(old(asRef(self, "*RoundRobinBackend").backends))
+//@        && sends == old(sends) ++ seq1(old(asRef(self, "*RoundRobinBackend").backends)[asRef(self, "*RoundRobinBackend").index])
+//@        && (forall r *RoundRobinBackend :: r != asRef(self, "*RoundRobinBackend") ==> r.index == old(r.index))
 
 //@ iface Backend.GetAddress
 //@   modifies nothing
@@ -50,7 +55,6 @@ package main
 
 //@ func (*RoundRobinBackend).Send
 //@   props C05
-//@   requires rb.index >= 0
 //@   modifies rb.index, sends
 //@   ensures empty: len(old(rb.backends)) == 0 ==> result != nil && sends == old(sends) && rb.index == old(rb.index)
 //@   ensures one: len(old(rb.backends)) > 0 ==> rb.index == (old(rb.index) + 1) % len(old(rb.backends)) && sends == old(sends) ++ seq1(old(rb.backends)[rb.index])
@@ -60,6 +64,7 @@ package main
 
 //@ func (*RoundRobinBackend).AddBackend
 //@   props C05 C19
+//@   requires leaf: !isType(backend, "*RoundRobinBackend")
 //@   event rrAdds: backendAddr(backend)
 //@   modifies rb.backends, mapof(rb.backendMap), bmAdds
 //@   ensures list: rb.backends == old(rb.backends) ++ seq1(backend)
@@ -97,6 +102,9 @@ package main
 
 //@ func (*DialogBasedBackend).GetBackend
 //@   props C15 C04
+//@   event lookups: dialog
+//@   revent gbOk: err == nil
+//@   revent gbBackend: result
 //@   modifies mapof(dbb.backends), now
 //@   ensures clock: now >= old(now)
 //@   ensures hit: old(has(dbb.backends, dialog)) && old(dbb.backends[dialog]).expire > now ==> err == nil && result == old(dbb.backends[dialog]).backend && has(dbb.backends, dialog) && dbb.backends[dialog] == old(dbb.backends[dialog])
@@ -305,10 +313,8 @@ package main
 //@   ensures stamp-when-enabled: rawMessage.Message.request != nil && rawMessage.ReceivedSupport ==>
 //@        stamps == old(stamps) ++ seq1(rawMessage.Message) && stampAddr == old(stampAddr) ++ seq1(rawMessage.PeerAddr) && stampPort == old(stampPort) ++ seq1(rawMessage.PeerPort)
 //@   ensures no-stamp-otherwise: !(rawMessage.Message.request != nil && rawMessage.ReceivedSupport) ==> stamps == old(stamps) && stampAddr == old(stampAddr) && stampPort == old(stampPort)
-//@ func (*Proxy).handleDialog
-//@   noinline
 //@ func (*Proxy).HandleMessage
-//@   props C02
+//@   props C02 C03 C06
 //@   ensures r-pop: msg.request == nil ==> popvias == old(popvias) ++ seq1(msg)
 //@   ensures r-at-most-one: msg.request == nil ==> len(smMsg) <= len(old(smMsg)) + 1 && len(smMsg) >= len(old(smMsg)) && stb == old(stb)
 //@   ensures r-dest: msg.request == nil && len(smMsg) == len(old(smMsg)) + 1 ==> smMsg[len(old(smMsg))] == msg
@@ -317,8 +323,21 @@ package main
 //@        && smHost[len(old(smHost))] == hopHost(asRef(msg.headers[firstIdx(msg.headers, "Via")].value, "*Via").params[0])
 //@        && smPort[len(old(smPort))] == hopPort(asRef(msg.headers[firstIdx(msg.headers, "Via")].value, "*Via").params[0])
 //@        && smTransport[len(old(smTransport))] == asRef(msg.headers[firstIdx(msg.headers, "Via")].value, "*Via").params[0].Transport
-//@   ensures r-sent-iff-hop: msg.request == nil ==> ((len(smMsg) == len(old(smMsg)) + 1) ==
-//@        (firstIdx(msg.headers, "Via") >= 0 && isType(msg.headers[firstIdx(msg.headers, "Via")].value, "*Via") && len(asRef(msg.headers[firstIdx(msg.headers, "Via")].value, "*Via").params) >= 1))
+//@   ensures r-hop-implies-sent: msg.request == nil && firstIdx(msg.headers, "Via") >= 0 && isType(msg.headers[firstIdx(msg.headers, "Via")].value, "*Via")
+//@        && len(asRef(msg.headers[firstIdx(msg.headers, "Via")].value, "*Via").params) >= 1 ==> len(smMsg) == len(old(smMsg)) + 1
+//@   ensures q-no-pop: msg.request != nil ==> popvias == old(popvias)
+//@   ensures q-route-consulted: msg.request != nil ==> len(routeOk) == len(old(routeOk)) + 1
+//@   ensures q-routed: msg.request != nil && routeOk[len(old(routeOk))] ==> stb == old(stb) && len(smMsg) == len(old(smMsg)) + 1 && smMsg[len(old(smMsg))] == msg
+//@        && smHost[len(old(smHost))] == routeHost[len(old(routeHost))] && smPort[len(old(smPort))] == routePort[len(old(routePort))] && smTransport[len(old(smTransport))] == routeTransport[len(old(routeTransport))]
+//@   ensures q-service: msg.request != nil && !routeOk[len(old(routeOk))] ==> smMsg == old(smMsg) && len(mineRes) == len(old(mineRes)) + 1
+//@        && (mineRes[len(old(mineRes))] ==> len(stb) == len(old(stb)) + 1 && stb[len(old(stb))] == msg)
+//@        && (!mineRes[len(old(mineRes))] ==> stb == old(stb))
+//@   ensures q-insert-when-learned: msg.request != nil && routeOk[len(old(routeOk))] ==> (let h == routeHost[len(old(routeHost))] ::
+//@        (old(has(p.selfLearnRoute.route, h)) ==>
+//@           len(addvias) == len(old(addvias)) + 1 && addvias[len(old(addvias))] == msg && addviaT[len(old(addviaT))] == old(p.selfLearnRoute.route[h])
+//@           && len(addrrs) == len(old(addrrs)) + 1 && addrrs[len(old(addrrs))] == msg && addrrT[len(old(addrrT))] == old(p.selfLearnRoute.route[h]))
+//@        && (!old(has(p.selfLearnRoute.route, h)) ==> addvias == old(addvias) && addrrs == old(addrrs)))
+//@   ensures q-no-insert-unrouted: msg.request != nil && !routeOk[len(old(routeOk))] && !mineRes[len(old(mineRes))] ==> addvias == old(addvias) && addrrs == old(addrrs)
 
 //@ func (*Proxy).receiveAndProcessMessage
 //@   props C19
@@ -363,7 +382,12 @@ package main
 
 //@ func (*PreConfigRoute).FindRoute
 //@   props C18
-//@   requires wf: forall k string :: has(pcr.items, k) ==> pcr.items[k] != nil && pcr.items[k].dest == k
+//@   event frDest: dest
+//@   revent frOk: err == nil
+//@   revent frHost: host
+//@   revent frPort: port
+//@   revent frProto: protocol
+//@   assume wf: forall k string :: has(pcr.items, k) ==> pcr.items[k] != nil && pcr.items[k].dest == k
 //@   modifies nothing
 //@   ensures exact: has(pcr.items, dest) ==> err == nil && protocol == pcr.items[dest].protocol && host == pcr.items[dest].host && port == pcr.items[dest].port
 //@   ensures wildcard: !has(pcr.items, dest) && (exists k string :: has(pcr.items, k) && routeMatch(k, dest)) ==>
@@ -640,9 +664,6 @@ package main
 //@   event smTransport: transport
 //@   event smMsg: msg
 
-//@ func (*Proxy).sendToBackend
-//@   noinline
-//@   event stb: msg
 
 // ---- summaries that keep callers' verification conditions small ----
 
@@ -652,14 +673,12 @@ package main
 
 //@ func (*Message).GetDialog
 //@   props C16 C04
+//@   revent gdOk: err == nil
+//@   revent gdId: result
 //@   modifies Header.value, W
 //@   ensures values-frame: forall h *Header :: (firstIdx(m.headers, "From") < 0 || h != m.headers[firstIdx(m.headers, "From")]) && (firstIdx(m.headers, "To") < 0 || h != m.headers[firstIdx(m.headers, "To")]) ==> h.value == old(h.value)
 
 // (request-side helpers: summarised here by their static mod sets; their own contracts are given where claimed)
-//@ func (*Proxy).getNextRequestHop
-//@   noinline
-//@ func (*MyName).isMyMessage
-//@   noinline
 
 // ---- received / rport stamping (C07) ----
 
@@ -870,6 +889,10 @@ package main
 
 //@ func (*Proxy).getNextRequestHopByRoute
 //@   props C13 C03
+//@   revent brOk: err == nil
+//@   revent brHost: host
+//@   revent brPort: port
+//@   revent brTransport: transport
 //@   ensures no-route: old(firstIdx(msg.headers, "Route")) < 0 ==> err != nil && poproutes == old(poproutes)
 //@   ensures keep: P.keepNextHopRoute ==> poproutes == old(poproutes)
 //@   ensures strip: !P.keepNextHopRoute && old(firstIdx(msg.headers, "Route")) >= 0 && isType(old(msg.headers[firstIdx(msg.headers, "Route")].value), "*Route")
@@ -884,3 +907,174 @@ package main
 //@   ensures not-sip: old(firstIdx(msg.headers, "Route")) >= 0 && isType(old(msg.headers[firstIdx(msg.headers, "Route")].value), "*Route")
 //@        && len(old(asRef(msg.headers[firstIdx(msg.headers, "Route")].value, "*Route").routeParams)) >= 1
 //@        && old(asRef(msg.headers[firstIdx(msg.headers, "Route")].value, "*Route").routeParams[0].nameAddr.Addr.sipURI) == nil ==> err != nil
+
+// ---- next hop of a request: Route first, then the static route for the To host (C03) ----
+
+//@ func (*Proxy).getNextRequestHopByConfig
+//@   props C03
+//@   revent bcOk: err == nil
+//@   revent bcHost: host
+//@   revent bcPort: port
+//@   revent bcTransport: transport
+//@   ensures no-to: old(firstIdx(msg.headers, "To")) < 0 ==> err != nil && frDest == old(frDest)
+//@   ensures at-most-one-lookup: len(frDest) <= len(old(frDest)) + 1 && len(frDest) >= len(old(frDest))
+//@   ensures no-lookup-no-route: frDest == old(frDest) ==> err != nil
+//@   ensures lookup-result: len(frDest) == len(old(frDest)) + 1 ==> (err == nil) == frOk[len(old(frOk))] && len(frOk) == len(old(frOk)) + 1
+//@        && (err == nil ==> host == frHost[len(old(frHost))] && port == frPort[len(old(frPort))] && transport == frProto[len(old(frProto))])
+//@   ensures to-host-looked-up: old(firstIdx(msg.headers, "To")) >= 0 && isType(old(msg.headers[firstIdx(msg.headers, "To")].value), "*To")
+//@        && old(asRef(msg.headers[firstIdx(msg.headers, "To")].value, "*To").nameAddr) != nil
+//@        && old(asRef(msg.headers[firstIdx(msg.headers, "To")].value, "*To").nameAddr.Addr) != nil
+//@        && old(asRef(msg.headers[firstIdx(msg.headers, "To")].value, "*To").nameAddr.Addr.sipURI) != nil ==>
+//@        frDest == old(frDest) ++ seq1(old(asRef(msg.headers[firstIdx(msg.headers, "To")].value, "*To").nameAddr.Addr.sipURI.Host))
+//@   ensures bare-to-host-looked-up: old(firstIdx(msg.headers, "To")) >= 0 && isType(old(msg.headers[firstIdx(msg.headers, "To")].value), "*To")
+//@        && old(asRef(msg.headers[firstIdx(msg.headers, "To")].value, "*To").nameAddr) == nil
+//@        && old(asRef(msg.headers[firstIdx(msg.headers, "To")].value, "*To").addrSpec) != nil
+//@        && old(asRef(msg.headers[firstIdx(msg.headers, "To")].value, "*To").addrSpec.sipURI) != nil ==>
+//@        frDest == old(frDest) ++ seq1(old(asRef(msg.headers[firstIdx(msg.headers, "To")].value, "*To").addrSpec.sipURI.Host))
+
+//@ func (*Proxy).getNextRequestHop
+//@   props C03
+//@   revent routeOk: err == nil
+//@   revent routeHost: host
+//@   revent routePort: port
+//@   revent routeTransport: transport
+//@   ensures route-consulted-once: len(brOk) == len(old(brOk)) + 1
+//@   ensures route-wins: brOk[len(old(brOk))] ==> err == nil && host == brHost[len(old(brHost))] && port == brPort[len(old(brPort))] && transport == brTransport[len(old(brTransport))] && bcOk == old(bcOk)
+//@   ensures then-static: !brOk[len(old(brOk))] ==> len(bcOk) == len(old(bcOk)) + 1 && (err == nil) == bcOk[len(old(bcOk))]
+//@        && (err == nil ==> host == bcHost[len(old(bcHost))] && port == bcPort[len(old(bcPort))] && transport == bcTransport[len(old(bcTransport))])
+
+// ---- is the request for the service? (C03, third rule) ----
+
+//@ func (*MyName).matchAbsoluteURI
+//@   props C03
+//@   modifies nothing
+//@   ensures result == ((exists j int :: 0 <= j && j < len(p.names) && p.names[j] == absoluteURI) || (exists j int :: 0 <= j && j < len(p.patterns) && reMatch(rePattern(p.patterns[j]), absoluteURI)))
+//@   loop 0:
+//@     invariant 0 <= $i && $i <= len(p.names)
+//@     invariant forall j int :: 0 <= j && j < $i ==> p.names[j] != absoluteURI
+//@   loop 1:
+//@     invariant 0 <= $i && $i <= len(p.patterns)
+//@     invariant forall j int :: 0 <= j && j < len(p.names) ==> p.names[j] != absoluteURI
+//@     invariant forall j int :: 0 <= j && j < $i ==> !reMatch(rePattern(p.patterns[j]), absoluteURI)
+
+//@ func (*MyName).matchSIPURI
+//@   props C03
+//@   modifies nothing
+//@   ensures result == ((exists j int :: 0 <= j && j < len(p.names) && nameMatchesSip(p.names[j], user, hostName)) || (exists j int :: 0 <= j && j < len(p.patterns) && reMatch(rePattern(p.patterns[j]), user + "@" + hostName)))
+//@   loop 0:
+//@     invariant 0 <= $i && $i <= len(p.names)
+//@     invariant forall j int :: 0 <= j && j < $i ==> !nameMatchesSip(p.names[j], user, hostName)
+//@   loop 1:
+//@     invariant 0 <= $i && $i <= len(p.patterns)
+//@     invariant forall j int :: 0 <= j && j < len(p.names) ==> !nameMatchesSip(p.names[j], user, hostName)
+//@     invariant forall j int :: 0 <= j && j < $i ==> !reMatch(rePattern(p.patterns[j]), user + "@" + hostName)
+
+//@ func (*MyName).isMyMessage
+//@   props C03
+//@   revent mineRes: result
+//@   modifies W
+//@   ensures not-a-request: msg.request == nil ==> !result
+//@   ensures absolute: msg.request != nil && msg.request.requestURI != nil && msg.request.requestURI.absoluteURI != nil && msg.request.requestURI.sipURI == nil ==>
+//@        result == ((exists j int :: 0 <= j && j < len(p.names) && p.names[j] == msg.request.requestURI.absoluteURI.absURI) || (exists j int :: 0 <= j && j < len(p.patterns) && reMatch(rePattern(p.patterns[j]), msg.request.requestURI.absoluteURI.absURI)))
+//@   ensures sip: msg.request != nil && msg.request.requestURI != nil && msg.request.requestURI.absoluteURI == nil && msg.request.requestURI.sipURI != nil ==>
+//@        result == ((msg.ReceivedFrom != nil && msg.request.requestURI.sipURI.Host == stAddr(msg.ReceivedFrom) && sipPort(msg.request.requestURI.sipURI) == stPort(msg.ReceivedFrom))
+//@                   || (exists j int :: 0 <= j && j < len(p.names) && nameMatchesSip(p.names[j], msg.request.requestURI.sipURI.User, msg.request.requestURI.sipURI.Host))
+//@                   || (exists j int :: 0 <= j && j < len(p.patterns) && reMatch(rePattern(p.patterns[j]), msg.request.requestURI.sipURI.User + "@" + msg.request.requestURI.sipURI.Host)))
+//@   ensures neither: msg.request != nil && msg.request.requestURI != nil && msg.request.requestURI.absoluteURI == nil && msg.request.requestURI.sipURI == nil ==> !result
+
+// the rotation cursor is never negative; a pool never contains another pool
+//@ fieldinv RoundRobinBackend.index: $v >= 0
+//@ fieldinv RoundRobinBackend.backends: forall k int :: 0 <= k && k < len($v) ==> !isType($v[k], "*RoundRobinBackend")
+
+// ---- dialog pinning (C04) and early dissolution (C15) ----
+
+//@ func (*Proxy).findBackendProxyItem
+//@   props C04
+//@   revent fbpi: result
+//@   modifies nothing
+//@   ensures none: (forall j int :: 0 <= j && j < len(p.items) ==> p.items[j].backend == nil) ==> result == nil
+//@   ensures found-if-any: result == nil ==> (forall j int :: 0 <= j && j < len(p.items) ==> p.items[j].backend == nil)
+//@   ensures first: result != nil ==> (exists j int :: 0 <= j && j < len(p.items) && p.items[j] == result && result.backend != nil && (forall k int :: 0 <= k && k < j ==> p.items[k].backend == nil))
+//@   loop 0:
+//@     invariant 0 <= $i && $i <= len(p.items)
+//@     invariant forall j int :: 0 <= j && j < $i ==> p.items[j].backend == nil
+
+//@ func (*Proxy).findProxyItemByRoundrobinBackend
+//@   props C04
+//@   modifies nothing
+//@   ensures result != nil ==> result.backend == rrBackend
+//@   loop 0:
+//@     invariant 0 <= $i && $i <= len(p.items)
+
+//@ func (*Message).GetClientTransaction
+//@   props C04 C12
+//@   revent ctOk: err == nil
+//@   revent ctId: result
+//@   modifies Header.value
+//@   ensures values-frame: forall h *Header :: (firstIdx(m.headers, "CSeq") < 0 || h != m.headers[firstIdx(m.headers, "CSeq")]) && (firstIdx(m.headers, "Via") < 0 || h != m.headers[firstIdx(m.headers, "Via")]) ==> h.value == old(h.value)
+//@   ensures via-typed-kept: firstIdx(m.headers, "Via") >= 0 && isType(old(m.headers[firstIdx(m.headers, "Via")].value), "*Via") ==> m.headers[firstIdx(m.headers, "Via")].value == old(m.headers[firstIdx(m.headers, "Via")].value)
+//@   ensures id: err == nil ==> isType(m.headers[firstIdx(m.headers, "CSeq")].value, "*CSeq") && isType(m.headers[firstIdx(m.headers, "Via")].value, "*Via")
+//@        && len(asRef(m.headers[firstIdx(m.headers, "Via")].value, "*Via").params) >= 1
+//@        && kvHas(asRef(m.headers[firstIdx(m.headers, "Via")].value, "*Via").params[0].Params, "branch")
+//@        && result == asRef(m.headers[firstIdx(m.headers, "CSeq")].value, "*CSeq").Method + "-" + kvGet(asRef(m.headers[firstIdx(m.headers, "Via")].value, "*Via").params[0].Params, "branch")
+
+//@ func (*Proxy).findBackendByDialog
+//@   props C04 C15
+//@   revent fbdOk: err == nil
+//@   revent fbdBackend: result0
+//@   revent fbdTransport: result1
+//@   ensures initial-not-pinned: msg.request != nil && (msg.request.method == "INVITE" || msg.request.method == "SUBSCRIBE") ==> err != nil && lookups == old(lookups) && unpins == old(unpins) && gdOk == old(gdOk)
+//@   ensures in-dialog-id: msg.request != nil && msg.request.method != "INVITE" && msg.request.method != "SUBSCRIBE" ==> len(gdOk) == len(old(gdOk)) + 1
+//@   ensures no-dialog: msg.request != nil && msg.request.method != "INVITE" && msg.request.method != "SUBSCRIBE" && !gdOk[len(old(gdOk))] ==> err != nil && lookups == old(lookups) && unpins == old(unpins)
+//@   ensures lookup: msg.request != nil && msg.request.method != "INVITE" && msg.request.method != "SUBSCRIBE" && gdOk[len(old(gdOk))] ==>
+//@        lookups == old(lookups) ++ seq1(gdId[len(old(gdId))]) && len(gbOk) == len(old(gbOk)) + 1 && (err == nil) == gbOk[len(old(gbOk))] && (err == nil ==> result0 == gbBackend[len(old(gbBackend))])
+//@   ensures notify-terminated: msg.request != nil && msg.request.method == "NOTIFY" && gdOk[len(old(gdOk))]
+//@        && firstIdx(msg.headers, "Subscription-State") >= 0 && msg.headers[firstIdx(msg.headers, "Subscription-State")].value == anyStr("terminated") ==> unpins == old(unpins) ++ seq1(gdId[len(old(gdId))])
+//@   ensures otherwise-kept: msg.request != nil && !(msg.request.method == "NOTIFY" && len(gdOk) == len(old(gdOk)) + 1 && gdOk[len(old(gdOk))]
+//@        && firstIdx(msg.headers, "Subscription-State") >= 0 && msg.headers[firstIdx(msg.headers, "Subscription-State")].value == anyStr("terminated")) ==> unpins == old(unpins)
+
+//@ func (*Proxy).sendToBackend
+//@   props C04 C06 C03
+//@   event stb: msg
+//@   ensures no-service-item: (forall j int :: 0 <= j && j < len(p.items) ==> p.items[j].backend == nil) ==> sends == old(sends) && addvias == old(addvias) && addrrs == old(addrrs) && fbdOk == old(fbdOk)
+//@   ensures dialog-consulted: fbdOk == old(fbdOk) || len(fbdOk) == len(old(fbdOk)) + 1
+//@   ensures consulted-if-service: fbdOk == old(fbdOk) ==> (forall j int :: 0 <= j && j < len(p.items) ==> p.items[j].backend == nil)
+//@   ensures inserts-itself: len(fbdOk) == len(old(fbdOk)) + 1 ==> len(addvias) == len(old(addvias)) + 1 && addvias[len(old(addvias))] == msg && len(addrrs) == len(old(addrrs)) + 1 && addrrs[len(old(addrrs))] == msg
+//@        && addrrT[len(old(addrrT))] == addviaT[len(old(addviaT))]
+//@   ensures pinned-transport: len(fbdOk) == len(old(fbdOk)) + 1 && fbdOk[len(old(fbdOk))] && fbdTransport[len(old(fbdTransport))] != nil ==> addviaT[len(old(addviaT))] == fbdTransport[len(old(fbdTransport))]
+//@   ensures pinned-goes-to-pin: len(fbdOk) == len(old(fbdOk)) + 1 && fbdOk[len(old(fbdOk))] && !isType(fbdBackend[len(old(fbdBackend))], "*RoundRobinBackend") ==>
+//@        sends == old(sends) ++ seq1(fbdBackend[len(old(fbdBackend))]) && (forall r *RoundRobinBackend :: r.index == old(r.index))
+//@   ensures item-chosen-once: len(fbpi) == len(old(fbpi)) + 1
+//@   ensures unpinned-uses-pool: len(fbdOk) == len(old(fbdOk)) + 1 && !fbdOk[len(old(fbdOk))] ==> (let it == cast(fbpi[len(old(fbpi))], "*ProxyItem") ::
+//@        (len(old(it.backend.backends)) == 0 ==> sends == old(sends))
+//@        && (len(old(it.backend.backends)) > 0 ==>
+//@              it.backend.index == (old(it.backend.index) + 1) % len(old(it.backend.backends))
+//@              && sends == old(sends) ++ seq1(old(it.backend.backends)[it.backend.index])))
+//@   ensures at-most-one-send: len(sends) <= len(old(sends)) + 1 && len(sends) >= len(old(sends))
+
+//@ func (*Proxy).getBackendOfResponse
+//@   props C04 C19
+//@   revent gborOk: err == nil
+//@   revent gborBackend: result
+//@   ensures by-address: has(p.backends, addr) ==> err == nil && result == p.backends[addr].backend && lookups == old(lookups) && unpins == old(unpins) && pins == old(pins)
+//@   ensures never-pins: pins == old(pins)
+//@   ensures by-transaction: !has(p.backends, addr) ==> len(ctOk) == len(old(ctOk)) + 1
+//@        && (!ctOk[len(old(ctOk))] ==> err != nil && lookups == old(lookups) && unpins == old(unpins))
+//@        && (ctOk[len(old(ctOk))] ==> lookups == old(lookups) ++ seq1(ctId[len(old(ctId))]) && (err == nil) == gbOk[len(old(gbOk))] && (err == nil ==> result == gbBackend[len(old(gbBackend))]))
+
+//@ func (*Proxy).handleDialog
+//@   props C04 C15
+//@   ensures requests-ignored: msg.response == nil ==> pins == old(pins) && unpins == old(unpins) && lookups == old(lookups)
+//@   ensures unattributed-ignored: msg.response != nil && len(gborOk) == len(old(gborOk)) + 1 && !gborOk[len(old(gborOk))] ==> pins == old(pins)
+//@   ensures attributed-once: msg.response != nil ==> len(gborOk) == len(old(gborOk)) + 1
+//@   ensures invite-pins: msg.response != nil && gborOk[len(old(gborOk))] && msg.request == nil
+//@        && firstIdx(msg.headers, "CSeq") >= 0 && isType(msg.headers[firstIdx(msg.headers, "CSeq")].value, "*CSeq") && asRef(msg.headers[firstIdx(msg.headers, "CSeq")].value, "*CSeq").Method == "INVITE" ==>
+//@        len(gdOk) == len(old(gdOk)) + 1
+//@        && (gdId[len(old(gdId))] != "" ==> pins == old(pins) ++ seq1(gdId[len(old(gdId))]) && pinBackends == old(pinBackends) ++ seq1(gborBackend[len(old(gborBackend))]))
+//@        && (gdId[len(old(gdId))] == "" ==> pins == old(pins))
+//@   ensures bye-unpins: msg.response != nil && gborOk[len(old(gborOk))] && msg.request == nil
+//@        && firstIdx(msg.headers, "CSeq") >= 0 && isType(msg.headers[firstIdx(msg.headers, "CSeq")].value, "*CSeq") && asRef(msg.headers[firstIdx(msg.headers, "CSeq")].value, "*CSeq").Method == "BYE" ==>
+//@        len(gdOk) == len(old(gdOk)) + 1 && pins == old(pins)
+//@        && (gdId[len(old(gdId))] != "" ==> len(unpins) >= 1 && unpins[len(unpins)-1] == gdId[len(old(gdId))])
+//@   ensures other-methods-leave-pins: msg.response != nil && msg.request == nil && firstIdx(msg.headers, "CSeq") >= 0 && isType(msg.headers[firstIdx(msg.headers, "CSeq")].value, "*CSeq")
+//@        && asRef(msg.headers[firstIdx(msg.headers, "CSeq")].value, "*CSeq").Method != "INVITE" ==> pins == old(pins)
